@@ -286,7 +286,7 @@ def _insert_propagate(body, names, log):
                 d2 -= 1
             elif c in ";{}" and d2 == 0:
                 break
-            elif d2 == 0 and re.search(r"\b(?:else|do)$", body[:b + 1]):
+            elif d2 == 0 and not (body[b + 1].isalnum() or body[b + 1] == "_") and re.search(r"\b(?:else|do)$", body[max(0, b - 8):b + 1]):
                 unbraced = b + 1
                 break
             b -= 1
